@@ -56,6 +56,9 @@ type StructCase struct {
 	ArgKind  string      `json:"arg"`  // ptr-struct | struct | ptr-int | nil-map
 	ViaApply bool        `json:"via_apply"`
 	Scribble bool        `json:"scribble"`
+	// Wire: the store talks to the service through the real setec.Client (client.go's encoding and
+	// status handling) instead of calling the fake directly
+	Wire bool `json:"wire,omitempty"`
 }
 
 var (
@@ -82,7 +85,7 @@ func fieldType(kind string) reflect.Type {
 		return tSecret
 	case "bin":
 		return tBin
-	case "binptr", "untagged-binptr":
+	case "binptr", "untagged-binptr", "json-binptr":
 		return tBinPtr
 	case "json-struct":
 		return tJSON
@@ -167,6 +170,11 @@ func runC20(t *testing.T, c StructCase) (v *h.Violation, info h.Info) {
 			if !bytes.HasPrefix(val, []byte("BAD")) {
 				val = []byte(fmt.Sprint(len(f.Val)))
 			}
+		case "json-binptr":
+			// a pointer field whose type ALSO implements BinaryUnmarshaler: the json verb decides
+			if !bytes.HasPrefix(val, []byte("BAD")) {
+				val, _ = json.Marshal(binVal{Got: f.Val})
+			}
 		}
 		if strings.HasPrefix(f.Kind, "json-") && bytes.HasPrefix(f.Val, []byte("TRAIL")) {
 			// a complete JSON value followed by something else: not a JSON document
@@ -224,9 +232,11 @@ func runC20(t *testing.T, c StructCase) (v *h.Violation, info h.Info) {
 			if bytes.HasPrefix(b, []byte("REJECT")) {
 				failing[i] = true
 			}
-		case "json-struct", "json-map", "json-int":
+		case "json-struct", "json-map", "json-int", "json-binptr":
 			var probe any
 			switch f.Kind {
+			case "json-binptr":
+				probe = &binVal{}
 			case "json-struct":
 				probe = &jsonVal{}
 			case "json-map":
@@ -241,10 +251,11 @@ func runC20(t *testing.T, c StructCase) (v *h.Violation, info h.Info) {
 	}
 	var st *setec.Store
 	var err error
+	var fsFirst *setec.Fields
 	l0 := svc.LogLen()
 	if c.ViaApply {
 		info.Class("via-apply")
-		st, err = setec.NewStore(context.Background(), setec.StoreConfig{Client: svc, Secrets: []string{"plain"}, AllowLookup: true, PollInterval: -1, Logf: nolog})
+		st, err = setec.NewStore(context.Background(), setec.StoreConfig{Client: storeClient(svc, c.Wire), Secrets: []string{"plain"}, AllowLookup: true, PollInterval: -1, Logf: nolog})
 		if err != nil {
 			return h.V("harness", "NewStore: %v", err), info
 		}
@@ -252,6 +263,7 @@ func runC20(t *testing.T, c StructCase) (v *h.Violation, info h.Info) {
 		l0 = svc.LogLen()
 		var fs *setec.Fields
 		fs, err = setec.ParseFields(arg, c.Prefix)
+		fsFirst = fs
 		if err == nil {
 			if got := fs.Secrets(); !reflect.DeepEqual(got, wantNames) && !(len(got) == 0 && len(wantNames) == 0) {
 				return h.V("requested-names-are-prefix-slash-name", "Fields.Secrets() = %q, want %q (prefix %q)", got, wantNames, c.Prefix), info
@@ -265,7 +277,7 @@ func runC20(t *testing.T, c StructCase) (v *h.Violation, info h.Info) {
 		// a bounded context: a shape that is wrongly accepted may name a secret the service does not have,
 		// and NewStore would then retry in real time for ever
 		nctx, ncancel := context.WithTimeout(context.Background(), 1500*time.Millisecond)
-		scfg := setec.StoreConfig{Client: svc, Structs: []setec.Struct{{Value: arg, Prefix: c.Prefix}}, PollInterval: -1, Logf: nolog}
+		scfg := setec.StoreConfig{Client: storeClient(svc, c.Wire), Structs: []setec.Struct{{Value: arg, Prefix: c.Prefix}}, PollInterval: -1, Logf: nolog}
 		if c.Scribble && len(c.Fields)%2 == 0 {
 			// another source of declared secrets next to the struct: an unusable struct must still be rejected
 			scfg.Secrets = []string{"plain"}
@@ -377,8 +389,15 @@ func runC20(t *testing.T, c StructCase) (v *h.Violation, info h.Info) {
 			if got := sec.Get(); !bytes.Equal(got, nb) {
 				return bad("handle does not follow a poll: yields %q, want %q", got, nb)
 			}
+			// ... also when the service goes BACK to an earlier version
 			svc.Set(full(f.Tag), 3, b)
-			st.Refresh(context.Background())
+			if err := st.Refresh(context.Background()); err != nil {
+				return h.V("harness", "Refresh: %v", err), info
+			}
+			if got := sec.Get(); !bytes.Equal(got, b) {
+				return bad("handle does not follow a poll after the service re-activated the earlier version 3: yields %q, want %q", got, b)
+			}
+			info.Class("handle-followed-a-rollback")
 		case "bin":
 			if got := fv.Interface().(binVal).Got; !bytes.Equal(got, b) {
 				return bad("UnmarshalBinary saw %q, want %q", got, b)
@@ -406,6 +425,12 @@ func runC20(t *testing.T, c StructCase) (v *h.Violation, info h.Info) {
 			if int(fv.Int()) != want {
 				return bad("decoded %d, want %d", fv.Int(), want)
 			}
+		case "json-binptr":
+			var want binVal
+			json.Unmarshal(b, &want)
+			if p := fv.Interface().(*binVal); p == nil || !bytes.Equal(p.Got, want.Got) {
+				return bad("a pointer field with the json verb holds %+v, JSON decoding of %q gives %+v (the type's UnmarshalBinary is not what the tag asks for)", p, b, want)
+			}
 		case "untagged-int":
 			if fv.Int() != 424242 {
 				return h.V("untagged-fields-untouched", "untagged int field %d now holds %d", i, fv.Int()), info
@@ -431,6 +456,46 @@ func runC20(t *testing.T, c StructCase) (v *h.Violation, info h.Info) {
 				return h.V("untagged-fields-untouched", "untagged field of the embedded struct now holds %d", e.EmbPlain), info
 			}
 		}
+	}
+	if c.ViaApply && fsFirst != nil && tagged > 0 {
+		// (0) The very same *Fields value is applied to the same store AGAIN after the program has
+		// scrubbed its raw fields: every field holds its secret's current value again, and a field
+		// that cannot be decoded is reported again.
+		for i, f := range c.Fields {
+			if fieldIdx[i] < 0 {
+				continue
+			}
+			switch fv := el.Field(fieldIdx[i]); f.Kind {
+			case "bytes":
+				fv.SetBytes([]byte("scrubbed"))
+			case "string":
+				fv.SetString("scrubbed")
+			}
+		}
+		err2 := fsFirst.Apply(context.Background(), st)
+		if len(failing) > 0 && err2 == nil {
+			return h.V("field-failure-is-reported", "fields %v cannot be decoded; the first Apply said so, a second Apply of the same Fields to the same store reports no error", failing), info
+		}
+		if len(failing) == 0 && err2 != nil {
+			return h.V("supported-shapes-accepted", "second Apply of the same Fields on the same store: %v", err2), info
+		}
+		for i, f := range c.Fields {
+			if fieldIdx[i] < 0 || failing[i] {
+				continue
+			}
+			b := served[full(f.Tag)]
+			switch fv := el.Field(fieldIdx[i]); f.Kind {
+			case "bytes":
+				if !bytes.Equal(fv.Bytes(), b) {
+					return h.V("field-holds-current-value", "field %d ([]byte, %q) was overwritten by the program; after applying the same Fields again it holds %q, the store serves %q", i, full(f.Tag), fv.Bytes(), b), info
+				}
+			case "string":
+				if fv.String() != string(b) {
+					return h.V("field-holds-current-value", "field %d (string, %q) was overwritten by the program; after applying the same Fields again it holds %q, the store serves %q", i, full(f.Tag), fv.String(), b), info
+				}
+			}
+		}
+		info.Class("same-fields-applied-again")
 	}
 	if c.ViaApply && len(failing) == 0 && tagged > 0 {
 		// (a) The same *Fields value is applied to ANOTHER store later (the first process's store is gone,
@@ -558,8 +623,9 @@ func genStructCase(rt *rapid.T) StructCase {
 		ArgKind:  rapid.SampledFrom([]string{"ptr-struct", "ptr-struct", "ptr-struct", "ptr-struct", "ptr-struct", "ptr-struct", "ptr-struct", "struct", "ptr-int", "nil-map"}).Draw(rt, "arg"),
 		ViaApply: rapid.Bool().Draw(rt, "apply"),
 		Scribble: rapid.Bool().Draw(rt, "scribble"),
+		Wire:     rapid.IntRange(0, 2).Draw(rt, "wire") == 0,
 	}
-	good := []string{"bytes", "bytes", "string", "secret", "bin", "binptr", "json-struct", "json-map", "json-int", "untagged-int", "untagged-bytes", "untagged-str", "untagged-binptr", "embedded"}
+	good := []string{"bytes", "bytes", "string", "secret", "bin", "binptr", "json-struct", "json-map", "json-int", "json-binptr", "untagged-int", "untagged-bytes", "untagged-str", "untagged-binptr", "embedded"}
 	bad := []string{"bad-int", "bad-float", "bad-chan", "empty-tag"}
 	withBad := rapid.IntRange(0, 9).Draw(rt, "withbad") == 0
 	allUntagged := rapid.IntRange(0, 14).Draw(rt, "alluntagged") == 0
